@@ -383,4 +383,8 @@ def find_scheme(
     both the version and annotation matching the given version (a basic
     scheme).  Returns an instance of the scheme."""
     cls = find_scheme_class(version=version, annotation=annotation)
-    return cls() if cls else None
+    # NoRestrictionsScheme needs column names and cannot be instantiated here;
+    # callers treat None as "no recognised scheme" and build it themselves.
+    if cls is None or cls is NoRestrictionsScheme:
+        return None
+    return cls()
